@@ -139,10 +139,37 @@ static void boxes_case (vf_rng *r)
     rq_free (&q1); rq_free (&q2);
 }
 
+/* source and destination inside ONE buffer, rows disjoint: the upper half copied onto the lower, or every other row gathered to the top
+ * (same origin, source stride twice the destination stride).  Row copies never overlap, so the byte model applies. */
+static void blt_same_buffer_case (vf_rng *r)
+{
+    int bpp = VF_PICK (r, ((int[]){ 8, 16, 32, 32 })), w = (int)vf_range (r, 1, 70), h = (int)vf_range (r, 2, 8) & ~1; if (h < 2) h = 2;
+    vf_buf b; if (!vf_buf_alloc_raw (&b, 0, bpp, w, h, (int)(vf_next (r) % 2), 0, vf_default_place (r))) return;
+    vf_buf_fill_random (&b, r); vf_buf_snapshot (&b);
+    int stride = b.stride / 4, decimate = vf_chance (r, 1, 2), rows = h / 2;
+    int x = (int)vf_range (r, 0, w - 1), ww = (int)vf_range (r, 1, w - x);
+    uint8_t *model = malloc (b.bytes); memcpy (model, b.snap, b.bytes);
+    pixman_bool_t ok;
+    vf_case_desc ("pixman_blt inside one buffer (%s) bpp=%d %dx%d stride=%d columns %d..%d chain='%s'", decimate ? "every other row gathered to the top: same origin, source stride = 2 x destination stride" : "upper half onto lower half", bpp, w, h, b.stride, x, x + ww, vf_chain_env ());
+    vf_inflight ("pixman_blt inside one buffer bpp=%d %dx%d", bpp, w, h);
+    if (decimate) {     /* destination row j <- source row 2j (row 0 is copied onto itself) */
+        for (int j = 0; j < rows; j++) for (int i = 0; i < ww; i++) vf_put_px (model + (size_t)j * b.stride, bpp, x + i, vf_get_px (model + (size_t)(2 * j) * b.stride, bpp, x + i));
+        ok = pixman_blt (b.bits, b.bits, 2 * stride, stride, bpp, bpp, x, 0, x, 0, ww, rows);
+    } else {
+        for (int j = 0; j < rows; j++) for (int i = 0; i < ww; i++) vf_put_px (model + (size_t)(rows + j) * b.stride, bpp, x + i, vf_get_px ((const uint8_t *)b.snap + (size_t)j * b.stride, bpp, x + i));
+        ok = pixman_blt (b.bits, b.bits, stride, stride, bpp, bpp, x, 0, x, rows, ww, rows);
+    }
+    vf_count ("evaluations", 1); vf_count ("blt_calls", 1); vf_count ("blt_inside_one_buffer", 1);
+    size_t at;
+    if (ok ? !same_storage (&b, model, &at) : memcmp (b.base, b.snap, b.bytes) != 0) { char key[96]; snprintf (key, sizeof key, ok ? "C19:blt-wrong-bytes:same-buffer:bpp%d" : "C19:blt-false-but-changed:bpp%d", bpp);
+        vf_violation (key, "pixman_blt returned %s but the buffer is not what copying the rows gives", ok ? "TRUE" : "FALSE"); }
+    free (model); vf_buf_free (&b);
+}
+
 static void blt_monitor_case (long idx, vf_rng *r)
 {
     for (int k = 0; k < 20; k++) {
-        switch (vf_next (r) % 5) { case 0: case 1: fill_case (r); break; case 2: blt_case (r); break; default: boxes_case (r); break; }
+        switch (vf_next (r) % 5) { case 0: case 1: fill_case (r); break; case 2: if (vf_chance (r, 1, 4)) blt_same_buffer_case (r); else blt_case (r); break; default: boxes_case (r); break; }
     }
     if (idx < 2) vf_sample ("case %ld: 20 calls mixed over pixman_fill (byte model), pixman_blt (byte model) and fill_boxes/fill_rectangles (vs compositing a solid per box)", idx);
 }
